@@ -292,3 +292,47 @@ PROPS.update({
                     'the model; the three clauses evaluated on the implementation\'s own numbers.',
     ),
 })
+PROPS.update({
+    'C13': dict(
+        domains=[dict(name='pool', quick=600, thorough=20000)],
+        race_domains=[dict(name='pool', quick=64, thorough=3000, args=['-force-conc'])],
+        verdicts=['c13_*'],
+        project={'pool': proj_allow},
+        prop_files=['props/C13.v'],
+        gen_files=['gen/Generated_Pool.v'], gen_props=['genprops/C13_generated.v'],
+        trivial_classes=(),
+        rule='(provider: sync.Pool or bounded cache; capacity 0/1/2/3/8) x (sequential acquire/release histories of 1-14 operations '
+             'over the three object kinds, object identities compared with the channel model | 2-64 goroutines x 20-220 rounds of '
+             '"all acquire, barrier, all release at once" on the provider behind an instrumenting ledger with a 6 s watchdog | 2-16 '
+             'goroutines x 5-35 encoded requests through a container, every body decoded and compared with its own payload); '
+             'distinct = distinct case text; every case is non-trivial',
+        trusted_base=['the translator harness/cmd/xlate (step structure of Acquire*/Release*; fails closed on unknown syntax)',
+                      'buffered channel and sync.Pool semantics as written in Model.Pool (Get/Put atomic and non-blocking)',
+                      'compress/gzip, compress/zlib'],
+        assumptions=['clients release what they acquired exactly once (that is C07_discipline for the framework itself)'],
+        explanation='Generic theorems Props.C13_exclusive / C13_nonblocking / C13_check_then_send_refuted; per-run instance '
+                    'genprops/C13_generated.v re-checked against the provider methods translated from /repo on this run; stress runs '
+                    'with watchdog, ledger and decoded bodies (also under the race detector).',
+    ),
+    'C12': dict(
+        domains=[dict(name='mut', quick=96, thorough=3000)],
+        race_domains=[dict(name='mut', quick=32, thorough=1000)],
+        verdicts=['c12_*'],
+        project={'mut': proj_allow},
+        prop_files=['props/C12.v'],
+        gen_files=['gen/Generated_Locks.v'], gen_props=['genprops/C12_generated.v'],
+        trivial_classes=(),
+        rule='per case one container (router Curly/JSR311; entry Dispatch / ServeHTTP / both) with a "/" service, a stable '
+             'service, a service with dynamic routes whose one route is added and removed in a loop by a mutator goroutine, and '
+             'a service that a second mutator adds and removes in a loop, while 2-8 serving goroutines send 200-1000 requests '
+             'each; every answer classified (untouched targets: the one legal answer; targets under change: one of the two); 20 s '
+             'watchdog; the same under the race detector; distinct = distinct case text; every case is non-trivial',
+        trusted_base=['the translator harness/cmd/xlate (lock operations and shared-field accesses of the listed entry points, calls '
+                      'inlined, deferred unlocks at function end; premise dynamicRoutes = true)',
+                      'Go memory model, sync.RWMutex, the race detector (no false positives)'],
+        assumptions=['one routes lock / one routes location stands for every WebService (accesses to different services do not conflict)'],
+        explanation='Generic theorems Props.C12_no_race / C12_no_deadlock; per-run instance genprops/C12_generated.v (lockset_ok of '
+                    'the table translated from /repo on this run); stress with classification and watchdog, and under the race '
+                    'detector (a report is the failing schedule).',
+    ),
+})
